@@ -66,7 +66,11 @@ def run():
                     kind, [c[0] for c in combo], "ok/exit 0" if want_ok else "FAIL/non-zero exit", r.returncode, has_ok, has_fail, src, out[-1500:])}, 1
     return {"cases": cases, "bound": "one or two test/example functions per package from a catalogue of %d behaviours (%s pairs), run through the built wa binary" % (len(CATALOGUE), "all" if tier == "thorough" else "five")}, 0
 try:
-    info, rc = run()
+    try:
+        info, rc = run()
+    except subprocess.TimeoutExpired as e:
+        # the machine is too loaded for the time budget of one wa invocation: undecided, never a violation
+        info, rc = {"error": "time budget exceeded (undecided): %s" % e}, 2
 finally:
     shutil.rmtree(tmp, ignore_errors=True)
 info.update({"name": "wa_test_verdicts", "tier": tier})
